@@ -924,6 +924,8 @@ def oracle(c, impl, traj):
                 dbl = [h for h in pend if any(g[0] == h[0] and g[2] == h[2] for g in im["off"])]
                 if close(im["E"], eo) and dbl and esum(c, x, dbl) != 0.0 and close(im["E"] - esum(c, x, dbl), eE):
                     sig = "outside-grid:unprojected-hill-counted-twice"
+                elif close(im["E"], eo) and facts["rebins"] > 0:
+                    sig = "rebin:off-grid-hills-not-recounted-on-new-grid"
                 elif close(im["E"], eo):
                     sig = "outside-grid:hills-far-from-edges-dropped"
                 else:
